@@ -1,14 +1,15 @@
 CHECKS = {
   "C22": dict(pkg="backfill", level="exploration",
               technique="property-based testing (rapid) with injected peer faults: the real Syncer + BlockFetcherClient + P2PBlockFetcher + TimeValidityWindow + BlockFetcherHandler wired to a scripted p2p client / node sampler / block store; history oracles computed from the generated true chain (safety of every SaveHistorical call, exact tracked set via IsRepeat, completion, content-based bounded liveness)",
-              level_text="randomised exploration of chains x windows x local suffixes x scripts of 17 peer behaviours; every case runs the real goroutines with the real 500 ms back-off (64 cases concurrently per rapid check), so the number of cases is in the hundreds (quick) to tens of thousands (thorough), not exhaustive",
-              level_note="block type / parser / store / network are harness fakes (the code under test is generic over them); constant validity-window rule; no UpdateSyncTarget during backfill; liveness is judged from the content of the delivered responses, a wall-clock timeout is INCONCLUSIVE (exit 2), never a violation; chains younger than the window are generated but the client's missing genesis stop is only labelled (unreachable with the real 2023 genesis header) unless VERIF_C22_STRICT_GENESIS=1",
+              level_text="randomised exploration of chains x windows x local suffixes x scripts of 17 peer behaviours x optional failing save x optional cancellation of the Start context at a drawn round; every case runs the real goroutines with the real 500 ms back-off (64 cases concurrently per rapid check), so the number of cases is in the hundreds (quick) to tens of thousands (thorough), not exhaustive",
+              level_note="block type / parser / store / network are harness fakes (the code under test is generic over them); constant validity-window rule; no UpdateSyncTarget during backfill (no forward completion: after a cancelled Start context Wait()==nil is accepted only if the recorded ancestry really is complete); liveness is judged from the content of the delivered responses, a wall-clock timeout is INCONCLUSIVE (exit 2), never a violation; chains younger than the window are in the domain (genesis stop demanded, repaired by fix F22; VERIF_C22_STRICT_GENESIS=0 only labels it)",
               essential_labels=["unlinked-wellformed-block-delivered", "good-prefix-then-bad-tail", "ran:forged", "ran:foreign",
                                 "ran:reordered", "ran:shifted", "ran:dup-inside", "ran:truncated", "ran:garbage-blocks",
                                 "ran:partial-store", "ran:prefix", "ran:overlong", "ran:honest", "script-exhausted",
                                 "block-ts==oldest-allowed", "equal-ts-run-at-oldest-allowed", "equal-ts-run-below-window",
                                 "boundary-is-genesis", "honest-needs>=2-rounds", "suffix-partial", "suffix-none",
-                                "save-failure-hit", "fetched>=4", "young-chain", "old-chain"],
+                                "save-failure-hit", "fetched>=4", "young-chain", "old-chain",
+                                "cancel-start:fired", "cancel-start:window-incomplete"],
               # one rapid check = one batch of 64 concurrent cases (~4-5 s of sleeping per batch)
               stages=[rapid("TestC22", 5, 60, timeout_quick=600, timeout_thorough=3000, shrink_s=30)]),
 }
